@@ -305,3 +305,29 @@ func verifH_C10_error_text() {
 	verifErrText(s.VisitJSON(v, VisitAsRequest()))
 	verifReach("end")
 }
+
+//verif:harness id=C10 tier=quick,thorough witness=end depth=3000 bounds="a recursive schema whose recursive property has a default: Node: {type: object, properties: {next: {allOf: [Node], default: {}}}} (also with the default one level deeper, and with a default that ends the recursion by being null on a nullable property); passes the real Schema.Validate; value {} or {next: {}} validated as a request with default-setting on: validation returns (known finding: each injected default receives a default of its own, without end)"
+func verifH_C10_recursive_defaults() {
+	node := &Schema{Type: &Types{"object"}, Properties: Schemas{}}
+	self := &SchemaRef{Ref: "#/components/schemas/Node", Value: node}
+	shape := verifChoose("shape", 3)
+	switch shape {
+	case 0:
+		node.Properties["next"] = &SchemaRef{Value: &Schema{AllOf: SchemaRefs{self}, Default: map[string]any{}}}
+	case 1:
+		node.Properties["next"] = &SchemaRef{Value: &Schema{AllOf: SchemaRefs{self}, Default: map[string]any{"next": map[string]any{}}}}
+	case 2:
+		// the chain of defaults ends: the property is nullable and its default is null-free but empty of defaults itself
+		node.Properties["next"] = &SchemaRef{Value: &Schema{Type: &Types{"string"}, Default: "end"}}
+	}
+	if node.Validate(context.Background()) != nil {
+		return
+	}
+	v := []any{map[string]any{}, map[string]any{"next": map[string]any{}}}[verifChoose("value", 2)]
+	if shape == 2 {
+		v = map[string]any{}
+	}
+	verifKnown("C10-recursive-default-unbounded-recursion", shape != 2)
+	verifErrText(node.VisitJSON(v, VisitAsRequest(), DefaultsSet(func() {})))
+	verifReach("end")
+}
